@@ -1120,7 +1120,7 @@ theorem eofLoop_E0 (o1 o2 : Opts) (fuel : Nat) : ∀ {a b : Mach}, E0 a b →
 
 
 /-- one round of the char-ref tokenizer's `end_of_file` (the local `once` of `crEof`) -/
-def crEofOnce (o : Opts) (m : Mach) (inp : Str) (cr : CharRefSt) : CRRes :=
+def crEofOnceE (o : Opts) (m : Mach) (inp : Str) (cr : CharRefSt) : CRRes :=
   match cr.state with
   | .begin => .ok (m, inp, cr, .done [])
   | .numeric _ =>
@@ -1145,17 +1145,17 @@ def crEofDrive (o : Opts) : CRRes → Except String (Mach × Str × Str)
   | .error e => .error e
   | .ok (m, inp, _, .done chars) => .ok (m, inp, chars)
   | .ok (m, inp, _, .stuck) => .ok (m, inp, [])
-  | .ok (m, inp, cr, .progress) => crEofLast (crEofOnce o m inp cr)
+  | .ok (m, inp, cr, .progress) => crEofLast (crEofOnceE o m inp cr)
 
-theorem crEof_eq (o : Opts) (m : Mach) (inp : Str) (cr : CharRefSt) :
-    crEof o m inp cr = crEofDrive o (crEofOnce o m inp cr) := by
-  unfold crEof crEofDrive crEofLast crEofOnce
+theorem crEof_eqE (o : Opts) (m : Mach) (inp : Str) (cr : CharRefSt) :
+    crEof o m inp cr = crEofDrive o (crEofOnceE o m inp cr) := by
+  unfold crEof crEofDrive crEofLast crEofOnceE
   rfl
 
 
 theorem crEofOnce_CRE (o1 o2 : Opts) {a b : Mach} (h : E a b) (inp : Str) (cr : CharRefSt) :
-    CRE (crEofOnce o1 a inp cr) (crEofOnce o2 b inp cr) := by
-  unfold crEofOnce unconsumeNumeric
+    CRE (crEofOnceE o1 a inp cr) (crEofOnceE o2 b inp cr) := by
+  unfold crEofOnceE unconsumeNumeric
   split <;> (repeat' split) <;>
     first
     | exact CRE_ok h _ _ _
@@ -1211,11 +1211,11 @@ theorem crEofDrive_CEE (o1 o2 : Opts) {r1 r2 : CRRes} (h : CRE r1 r2) :
 
 theorem crEof_CEE (o1 o2 : Opts) {a b : Mach} (h : E a b) (inp : Str) (cr : CharRefSt) :
     CEE (crEof o1 a inp cr) (crEof o2 b inp cr) := by
-  rw [crEof_eq, crEof_eq]
+  rw [crEof_eqE, crEof_eqE]
   exact crEofDrive_CEE o1 o2 (crEofOnce_CRE o1 o2 h inp cr)
 
 /-- the part of `Tokenizer::end` before the final `run`: finish a pending character reference -/
-def finishPre (o : Opts) (m : Mach) : Except String (Mach × Str) :=
+def finishPreE (o : Opts) (m : Mach) : Except String (Mach × Str) :=
   match m.charRef with
   | none => .ok (m, [])
   | some cr =>
@@ -1239,11 +1239,11 @@ def finishPost (o : Opts) (pol : Pol) (mi : Mach × Str) : Except String Mach :=
   | .panic e => .error e
   | .outOfFuel => .error "run out of fuel"
 
-theorem finish_eq (o : Opts) (pol : Pol) (m : Mach) :
-    finish o pol m = match finishPre o m with
+theorem finish_eqE (o : Opts) (pol : Pol) (m : Mach) :
+    finish o pol m = match finishPreE o m with
       | .error e => .error e
       | .ok mi => finishPost o pol mi := by
-  unfold finish finishPre finishPost
+  unfold finish finishPreE finishPost
   cases m.charRef with
   | none => rfl
   | some cr =>
@@ -1263,8 +1263,8 @@ def PreE (r1 r2 : Except String (Mach × Str)) : Prop :=
   | .error x, .error y => x = y
   | _, _ => False
 
-theorem finishPre_PreE (o1 o2 : Opts) {a b : Mach} (h : E a b) : PreE (finishPre o1 a) (finishPre o2 b) := by
-  unfold finishPre
+theorem finishPre_PreE (o1 o2 : Opts) {a b : Mach} (h : E a b) : PreE (finishPreE o1 a) (finishPreE o2 b) := by
+  unfold finishPreE
   rw [h.1.charRef]
   cases a.charRef with
   | none => exact ⟨h, rfl⟩
@@ -1328,10 +1328,10 @@ theorem finishPost_E (o1 o2 : Opts) (pol : Pol) (hp : PolE pol) {a b : Mach} (h 
 with the same tokens up to parse errors** -/
 theorem finish_E (o1 o2 : Opts) (pol : Pol) (hp : PolE pol) {a b : Mach} (h : E a b) :
     (finish o1 pol a).map (fun m => noErr m.out) = (finish o2 pol b).map (fun m => noErr m.out) := by
-  rw [finish_eq, finish_eq]
+  rw [finish_eqE, finish_eqE]
   have hpre := finishPre_PreE o1 o2 h
-  generalize finishPre o1 a = r1 at hpre
-  generalize finishPre o2 b = r2 at hpre
+  generalize finishPreE o1 a = r1 at hpre
+  generalize finishPreE o2 b = r2 at hpre
   cases r1 with
   | error e1 =>
     cases r2 with
